@@ -471,6 +471,27 @@ def _te_flags(f: FuncInfo) -> set:
     return out
 
 
+def _cl_store_kind(slice_value: ast.AST, m: Any, ce: ConstEval) -> Optional[str]:
+    """How a store `headers[<slice>] = ...` names the length field.  'existing-or-canonical': the existing field's own spelling when there is one
+    (next((k for k in headers if k.lower() == b'content-length'), b'Content-Length')), so no second field is added; 'canonical': the constant
+    b'Content-Length' whatever is already there; None: not a Content-Length store."""
+    if ce.try_eval(m, slice_value) == b'Content-Length':
+        return 'canonical'
+    v = slice_value
+    if isinstance(v, ast.Call) and attr_chain(v.func) == 'next' and len(v.args) == 2 and ce.try_eval(m, v.args[1]) == b'Content-Length' and \
+            isinstance(v.args[0], (ast.GeneratorExp, ast.ListComp)) and len(v.args[0].generators) == 1:
+        g_ = v.args[0].generators[0]
+        key = _key_var(g_.target, g_.iter)
+        if key is not None and norm(v.args[0].elt) == key and len(g_.ifs) == 1:
+            t = g_.ifs[0]
+            if isinstance(t, ast.Compare) and len(t.ops) == 1 and isinstance(t.ops[0], ast.Eq):
+                sides = [t.left, t.comparators[0]]
+                if any(isinstance(x, ast.Constant) and x.value == b'content-length' for x in sides) and \
+                        any(isinstance(x, ast.Call) and isinstance(x.func, ast.Attribute) and x.func.attr == 'lower' and norm(x.func.value) == key for x in sides):
+                    return 'existing-or-canonical'
+    return None
+
+
 def content_length_check(ch: Checker, rule: str) -> None:
     prog = ch.prog
     ce = ConstEval(prog)
@@ -478,6 +499,7 @@ def content_length_check(ch: Checker, rule: str) -> None:
         f = prog.function('proxy.common.utils', name)
         g = cfg_of(f, prog, exc_edges=False)
         bad = None
+        dup = None
         n = 0
         nstores = 0
         te_flags = _te_flags(f)
@@ -498,8 +520,16 @@ def content_length_check(ch: Checker, rule: str) -> None:
             body_arg = (ba or {}).get('body') if ba is not None else (pk[0].args[2] if len(pk[0].args) >= 3 else None)
             body_txt = norm(sym.value(body_arg, last[0])) if body_arg is not None else None
             for i, st in p.stmts():
-                if isinstance(st, ast.Assign) and isinstance(st.targets[0], ast.Subscript) and ce.try_eval(f.module, st.targets[0].slice) == b'Content-Length':
+                kind_ = _cl_store_kind(sym.value(st.targets[0].slice, i), f.module, ce) if isinstance(st, ast.Assign) and isinstance(st.targets[0], ast.Subscript) else None
+                if kind_ is not None:
                     nstores += 1
+                    if kind_ == 'canonical':
+                        # a second field next to one spelled in another case, unless every case variant was removed before
+                        removed = any(isinstance(c_, ast.Call) and isinstance(c_.func, ast.Attribute) and c_.func.attr in ('pop', '__delitem__') for j_, s_ in p.stmts() if j_ < i for c_ in walk_no_nested(s_)) or \
+                            any(isinstance(s_, ast.Delete) for j_, s_ in p.stmts() if j_ < i)
+                        if not removed:
+                            dup = ('the computed length is stored under the constant name b\'Content-Length\' whatever the map already holds: a message that arrived with `content-length: N` is rebuilt with that '
+                                   'field AND `Content-Length: N` -- two length fields, which a recipient may reject (RFC 7230 3.3.2) and a sender must not produce', p.describe(22))
                     v = sym.value(st.value, i)
                     vt = norm(v)
                     # value = bytes_(len(<body>)) (or b'0' for no body)
@@ -512,6 +542,7 @@ def content_length_check(ch: Checker, rule: str) -> None:
                         te = [a for a in fd if 'transfer' in a.lower()]
                         bad = ('Content-Length is written without the case-insensitive "no Transfer-Encoding header" test on the path (guards: %s): a header spelled in another case '
                                'gets a Content-Length added next to it' % (te or 'none'), p.describe(22))
+        ch.check(dup is None and nstores > 0, rule, f, 'one Content-Length', 'the length is stored under the existing field\'s own spelling (no second Content-Length field)', dup[0] if dup else 'no Content-Length store found', witness=dup[1] if dup else None)
         ch.check(bad is None and n > 0 and nstores > 0, rule, f, 'Content-Length', 'Content-Length = len(body passed on), guarded by the case-insensitive transfer-encoding scan (%d path(s))' % n,
                  bad[0] if bad else 'no Content-Length store found', witness=bad[1] if bad else None)
 
